@@ -605,3 +605,27 @@ Proof.
   split; [intros a b H; unfold by_name in *; apply opt_cmp_consistent; exact H|].
   intros a b Ha Hb. unfold by_name. rewrite !e_out_key by assumption. reflexivity.
 Qed.
+
+(* paragraph comparators that look at the fields only (by first value, control order) do not see the
+   re-layout when the fields are not sorted: the paragraph step keeps items() as it is *)
+From V.proofs Require Import ParseTokP.
+Lemma pp_out_items_nosort ind iel mll p : para_ok ind p = true -> items (pp_out ind iel mll None p) = items p.
+Proof.
+  intros H. destruct p as [|k ps]; [discriminate|]. destruct k; try discriminate. cbn [para_ok] in H.
+  unfold pp_out. cbn [children]. rewrite items_ensure_nl_para. destruct (p_out_items ind iel mll None ps H) as [A B].
+  rewrite B, A. reflexivity.
+Qed.
+
+Lemma by_first_value_psort_ok ind iel mll : psort_ok ind iel mll (Some by_first_value) None.
+Proof.
+  split; [intros a b H; unfold by_first_value in *; apply opt_cmp_consistent; exact H|].
+  intros a b Ha Hb. unfold by_first_value, first_value. rewrite !pp_out_items_nosort by assumption. reflexivity.
+Qed.
+
+Lemma control_order_psort_ok ind iel mll : psort_ok ind iel mll (Some control_order) None.
+Proof.
+  split.
+  - intros a b. unfold control_order.
+    destruct (is_some (get a Lit.k_Source)), (is_some (get b Lit.k_Source)); cbn [andb negb]; intros H; try discriminate; apply opt_cmp_consistent; exact H.
+  - intros a b Ha Hb. unfold control_order. rewrite !GrammarAccP.get_items, !pp_out_items_nosort by assumption. reflexivity.
+Qed.
